@@ -109,6 +109,13 @@ def run_case(ri):
             if not np.array_equal(np.asarray(a1[0]), keep1, equal_nan=True):
                 probs.append('args: the array returned by the first call was changed by the second call of the same object')
             b2 = nd.Derivative(g, n=r['n'], method=r['m'], order=r['o'], full_output=True)(xx, -0.5)
+            # a single extra argument whose VALUE is a tuple (or a list) is one argument
+            gt = lambda z, pair, t=0.0: fun(z) * pair[0] + pair[1] * t
+            t1 = nd.Derivative(gt, n=r['n'], method=r['m'], order=r['o'], full_output=True)(xx, (2.0, 5.0))
+            t2 = nd.Derivative(gt, n=r['n'], method=r['m'], order=r['o'], full_output=True)(xx, [2.0, 5.0])
+            t3 = nd.Derivative(g, n=r['n'], method=r['m'], order=r['o'], full_output=True)(xx, 2.0)
+            if not (same(t1[0], t3[0]) and same(t2[0], t3[0])):
+                probs.append('args: a tuple-valued extra argument gives %r, the same function with scalar arguments %r' % (np.ravel(t1[0])[:3].tolist(), np.ravel(t3[0])[:3].tolist()))
         if not (same(a2[0], b2[0]) and same(a2[1].error_estimate, b2[1].error_estimate) and same(a2[1].f_value, b2[1].f_value)):
             probs.append('args: second call with other extra arguments on the same object gives %r, a fresh object %r' % (np.ravel(a2[0])[:3].tolist(), np.ravel(b2[0])[:3].tolist()))
     except Exception as ex:
